@@ -73,7 +73,8 @@ def agentStep (s : MonState) (toks : List String) (isB : Bool) (x : AgInfo) (p c
   let changedAny := changedP || p.rRaw != c.rRaw || p.lRaw != c.lRaw || p.sel != c.sel
   let inc? : Option Inc := match ctx.tgt with | .to i => if i.toB == isB then some i else none | _ => none
   -- C06
-  let v06 := (if changedAny then c06StaticNew x p c else []) ++ (if changedP then c06Dyn x p c else []) ++ (if isRestart then c06Restart c else [])
+  let v06 := (if changedAny then c06StaticNew x p c else []) ++ (if changedP then c06Dyn x p c else []) ++ (if isRestart then c06Restart c else []) ++
+    (if p.rRaw != c.rRaw then c06Supersede x w p c toks ++ c06NoDupPrflx x p c toks else [])
   -- C04
   let (v04, lastCb) := if c.cs.isEmpty && c.st == x.lastCb && c.st == p.st && c.sel == p.sel then ([], x.lastCb) else c04 x isRestart c
   let xt := { x with checkEnter := if c.cs.contains "Checking" then some (s.now, t1) else x.checkEnter,
@@ -95,7 +96,8 @@ def agentStep (s : MonState) (toks : List String) (isB : Bool) (x : AgInfo) (p c
     | ["write", _, _, sl] => if opIs "write" then (c07Write x p c res out len3 (sl == "1"), x.rxq) else ([], x.rxq)
     | ["writepair", _, id, l, sl] =>
       if opIs "writepair" then (c07WritePair x p res out ((id.toNat?).getD 0) ((l.toNat?).getD 0) (sl == "1"), x.rxq) else ([], x.rxq)
-    | ["read", _] => if opIs "read" then c07Read x p c res else ([], x.rxq)
+    | ["read", _] => if opIs "read" then c07Read x p c res 8192 else ([], x.rxq)
+    | ["read", _, cap] => if opIs "read" then c07Read x p c res ((cap.toNat?).getD 8192) else ([], x.rxq)
     | _ => ([], x.rxq)
   let (v07a, rxq) := v07op
   let isStart := opIs "start"
